@@ -12,7 +12,7 @@ import re
 from rdkit import Chem
 
 from . import refsem as R
-from .common import HarnessError
+from .common import HarnessError, run_limited
 from .scripted import explore
 
 _DIST_RE = re.compile(r"^\s*(\w+)\s*\(([^)]*)\)\s*$")
@@ -514,12 +514,17 @@ def run_instance(inst, max_exec=200000, bound=None, want=("C04", "C05", "C06", "
     def run(rng):
         try:
             mol = shared[0] if reuse else gbigsmiles.Molecule(text)
-            mg = mol.generate(rng=rng)
-            return ("ok", mg)
-        except HarnessError:
-            raise
         except Exception as e:  # noqa
             return ("exc", f"{type(e).__name__}: {str(e)[:100]}")
+        # one execution of a bounded instance takes milliseconds; 60 s or 20000 generator requests = does not terminate
+        st, out = run_limited(lambda: mol.generate(rng=rng), (), 60)
+        if st == "ok":
+            return ("ok", out)
+        if st in ("timeout", "memory"):
+            return ("exc", f"NonTermination: generate() {st} (no result after 60 s / 20000 generator requests)")
+        if out.startswith("HarnessError"):
+            raise HarnessError(out)
+        return ("exc", out.replace("(", ": ", 1)[:-1][:120] if out.endswith(")") else out[:120])
 
     # model first (it also tells whether the instance is well posed)
     model_out = {}
